@@ -21,9 +21,18 @@ def fnv32 (bs : Bytes) : UInt32 := bs.foldl (fun h b => (h ^^^ b.toUInt32) * 167
 def fnvStr (s : String) : String := hexN 8 (fnv32 s.toUTF8.toList).toNat
 def fnvHex (bs : Bytes) : String := hexN 8 (fnv32 bs).toNat
 
+/-- fnv of the first `n` bytes, and the rest -/
+def fnvN : Nat → Bytes → UInt32 → UInt32 × Bytes
+  | 0, bs, h => (h, bs)
+  | _, [], h => (h, [])
+  | n+1, b :: bs, h => fnvN n bs ((h ^^^ b.toUInt32) * 16777619)
+
 /-- the fnv of each 8192-byte chunk (and of the remainder, if any) -/
 partial def chunkHashes (bs : Bytes) (acc : Array String := #[]) : Array String :=
-  if bs.isEmpty then acc else chunkHashes (bs.drop 8192) (acc.push (fnvHex (bs.take 8192)))
+  if bs.isEmpty then acc
+  else
+    let (h, rest) := fnvN 8192 bs 2166136261
+    chunkHashes rest (acc.push (hexN 8 h.toNat))
 
 /-- digest of a byte string: `<len>:<fnv of the joined chunk hashes>` -/
 def digestOfHashes (len : Nat) (hs : List String) : String := s!"{len}:{fnvStr (String.join hs)}"
